@@ -15,37 +15,50 @@ import struct
 from pathlib import Path
 
 SHAPES = ['T', 'TP', 'TS', 'TSP', 'TM', 'TSM']
-DTYPES = ['int32', 'int64', 'float32', 'float64', 'str']
+INTS = ['int8', 'int16', 'int32', 'int64', 'uint8', 'uint16', 'uint32', 'uint64']
+NUMERIC = INTS + ['float32', 'float64']
+DTYPES = NUMERIC + ['str']
 COQ_SHAPE = {'T': 'ShT', 'TP': 'ShTP', 'TS': 'ShTS', 'TSP': 'ShTSP', 'TM': 'ShTM', 'TSM': 'ShTSM'}
-COQ_DTYPE = {'int32': 'I32', 'int64': 'I64', 'float32': 'F32', 'float64': 'F64', 'str': 'Str'}
+COQ_DTYPE = {'int8': 'I8', 'int16': 'I16', 'int32': 'I32', 'int64': 'I64', 'uint8': 'U8', 'uint16': 'U16',
+             'uint32': 'U32', 'uint64': 'U64', 'float32': 'F32', 'float64': 'F64', 'str': 'Str'}
+NC_CODE = {'int8': 'i1', 'int16': 'i2', 'int32': 'i4', 'int64': 'i8', 'uint8': 'u1', 'uint16': 'u2', 'uint32': 'u4',
+           'uint64': 'u8', 'float32': 'f4', 'float64': 'f8'}
 NSPECIES = 16
 ERR = {'EIndexBound', 'EValue', 'EType', 'EAssert', 'EAttr', 'EStopIter', 'EHdf'}
 
 
 def np_dtype(name):
     import numpy as np
-    return {'int32': np.int32, 'int64': np.int64, 'float32': np.float32, 'float64': np.float64, 'str': str}[name]
+    return str if name == 'str' else getattr(np, name)
 
 
 def fill_value(dtype):
     import netCDF4
-    return {'int32': netCDF4.default_fillvals['i4'], 'int64': netCDF4.default_fillvals['i8'],
-            'float32': netCDF4.default_fillvals['f4'], 'float64': netCDF4.default_fillvals['f8'], 'str': ''}[dtype]
+    return '' if dtype == 'str' else netCDF4.default_fillvals[NC_CODE[dtype]]
 
 
 # ---------------------------------------------------------------------------------------------------
 # generation
 # ---------------------------------------------------------------------------------------------------
 
+def int_range(dtype):
+    """representable values, keeping clear of the NetCDF fill sentinel (min + 1 for signed, max or max - 1 for
+    unsigned types)"""
+    bits = int(dtype.lstrip('uint'))
+    if dtype.startswith('u'):
+        return 0, 2 ** bits - 4
+    return -(2 ** (bits - 1)) + 3, 2 ** (bits - 1) - 1
+
+
 def gen_scalar(rng, dtype, nonempty=False):
-    if dtype in ('int32', 'int64'):
-        bits = 31 if dtype == 'int32' else 63
+    if dtype in INTS:
+        lo, hi = int_range(dtype)
         r = rng.random()
         if r < 0.15:
-            return rng.choice([0, 1, -1, 2 ** bits - 1, -(2 ** bits) + 3, 7])
+            return rng.choice([v for v in (0, 1, -1, hi, lo, 7) if lo <= v <= hi])
         if r < 0.6:
-            return rng.randint(-1000, 1000)
-        return rng.randint(-(2 ** bits) + 3, 2 ** bits - 1)
+            return rng.randint(max(lo, -100), min(hi, 100))
+        return rng.randint(lo, hi)
     if dtype in ('float32', 'float64'):
         r = rng.random()
         if r < 0.12:
@@ -111,17 +124,20 @@ def gen_case(rng, uid, force=None):
     force = force or {}
     nsets = rng.randint(1, 3)
     sets = []
-    for _ in range(nsets):
+    if 'sets' in force:                      # a second store over field sets that are already registered
+        sets = force['sets']
+        nsets = len(sets)
+    for _ in range(0 if 'sets' in force else nsets):
         fields = []
         for _ in range(rng.randint(1, 5)):
             sh = rng.choice(SHAPES)
             if sh in ('T', 'TS'):
-                dt = rng.choice(DTYPES)
+                dt = rng.choice(DTYPES) if rng.random() < 0.75 else rng.choice(['str', 'float64', 'int32'])
             else:
-                dt = rng.choice(DTYPES[:4])
+                dt = rng.choice(NUMERIC)
             fields.append({'shape': sh, 'dtype': dt, 'req': rng.random() < 0.55})
         sets.append({'fields': fields})
-    if force.get('tp_str') or rng.random() < 0.03:          # F-C03c stream: a per-point string field
+    if 'sets' not in force and (force.get('tp_str') or rng.random() < 0.03):   # F-C03c stream: a per-point string field
         sets[0]['fields'].append({'shape': 'TP', 'dtype': 'str', 'req': True})
     layout = rng.choice(['single', 'single', 'assoc', 'mapped'])
     ids = list(range(1, nsets + 1))
@@ -174,9 +190,10 @@ def gen_case(rng, uid, force=None):
                         one = gen_field_value(rng, {**fld, 'req': True}, [extra])
                     v = {**v, **one}
                     trajs[-1]['vals'][str(i)][k] = v
-                    return {'uid': uid, 'sets': sets, 'layout': layout, 'apart': apart, 'trajs': trajs,
-                            'out_of_dim': True}
-    return {'uid': uid, 'sets': sets, 'layout': layout, 'apart': apart, 'trajs': trajs, 'out_of_dim': False}
+                    return {'uid': uid, 'fs_uid': force.get('fs_uid', uid), 'sets': sets, 'layout': layout,
+                            'apart': apart, 'trajs': trajs, 'out_of_dim': True}
+    return {'uid': uid, 'fs_uid': force.get('fs_uid', uid), 'sets': sets, 'layout': layout, 'apart': apart,
+            'trajs': trajs, 'out_of_dim': False}
 
 
 # ---------------------------------------------------------------------------------------------------
@@ -193,8 +210,8 @@ def make_array(seed, n, dtype):
         return a.astype(np_dtype(dtype))
     if dtype == 'str':
         return np.array([f's{seed % 97}_{k}' for k in range(n)], dtype=str)
-    info = np.iinfo(np_dtype(dtype))
-    return g.integers(info.min + 3, info.max, size=n, dtype=np_dtype(dtype), endpoint=True)
+    lo, hi = int_range(dtype)
+    return g.integers(lo, hi, size=n, dtype=np_dtype(dtype), endpoint=True)
 
 
 def build_value(v, fld, n):
@@ -206,19 +223,24 @@ def build_value(v, fld, n):
     species = list(Species)
     modes = list(ThrustMode)
 
+    sh, dt = fld['shape'], fld['dtype']
+
+    def sc(x):
+        # integers are handed over in the field's own type (numpy will not cast a signed value to an unsigned field)
+        return np_dtype(dt)(x) if dt in INTS else x
+
     def tmv(x):
         if isinstance(x, dict):
-            return ThrustModeValues({modes[int(k)]: val for k, val in x['partial'].items()})
-        return ThrustModeValues({modes[k]: x[k] for k in range(4)})
-    sh, dt = fld['shape'], fld['dtype']
+            return ThrustModeValues({modes[int(k)]: sc(val) for k, val in x['partial'].items()})
+        return ThrustModeValues({modes[k]: sc(x[k]) for k in range(4)})
     if v is None:
         return None
     if sh == 'T':
-        return v
+        return sc(v)
     if sh == 'TP':
         return make_array(v['a'], n, dt)
     if sh == 'TS':
-        return SpeciesValues({species[int(s)]: x for s, x in v.items()})
+        return SpeciesValues({species[int(s)]: sc(x) for s, x in v.items()})
     if sh == 'TSP':
         return SpeciesValues({species[int(s)]: make_array(x['a'], n, dt) for s, x in v.items()})
     if sh == 'TM':
@@ -248,7 +270,7 @@ class Interner:
 
 
 def canon_scalar(x, dtype):
-    if dtype in ('int32', 'int64'):
+    if dtype in INTS:
         return ['VInt', int(x)]
     if dtype == 'float32':
         return ['VFlt', struct.unpack('<I', struct.pack('<f', float(x)))[0]]
@@ -286,7 +308,7 @@ def same_scalar(a, b, dtype):
     import numpy as np
     if dtype == 'str':
         return isinstance(a, str) and isinstance(b, str) and a == b
-    if dtype in ('int32', 'int64'):
+    if dtype in INTS:
         def integral(x):       # ThrustModeValues hands out 0.0 for a mode that was never given
             return (isinstance(x, (int, np.integer)) and not isinstance(x, bool)) or \
                    (isinstance(x, (float, np.floating)) and float(x).is_integer())
@@ -425,21 +447,27 @@ def run_case_impl(case, tmp: Path) -> CaseRun:
     run = CaseRun()
     interner = Interner()
     uid = case['uid']
+    fs_uid = case.get('fs_uid', uid)          # field sets may be shared with an earlier store of the same process
     bf = base_fields()
     names = {0: 'base'}
     metas = {0: [f for _, f in bf]}
     fnames = {0: [n for n, _ in bf]}
     for k, fs in enumerate(case['sets']):
         i = k + 1
-        names[i] = f'{uid}_{i}'
-        fnames[i] = [f'{uid}_{i}_f{j}' for j in range(len(fs['fields']))]
+        names[i] = f'{fs_uid}_{i}'
+        fnames[i] = [f'{fs_uid}_{i}_f{j}' for j in range(len(fs['fields']))]
         metas[i] = fs['fields']
         if not FieldSet.known(names[i]):
-            FieldSet(names[i], **{fnames[i][j]: FieldMetadata(dimensions=Dimensions.from_abbrev(f['shape']),
-                                                             field_type=np_dtype(f['dtype']),
-                                                             description=f'C03 {f["shape"]} {f["dtype"]}',
-                                                             units='u', required=f['req'])
-                                  for j, f in enumerate(fs['fields'])})
+            try:
+                fmd = {fnames[i][j]: FieldMetadata(dimensions=Dimensions.from_abbrev(f['shape']),
+                                                   field_type=np_dtype(f['dtype']),
+                                                   description=f'C03 {f["shape"]} {f["dtype"]}',
+                                                   units='u', required=f['req'])
+                       for j, f in enumerate(fs['fields'])}
+            except ValueError as e:          # a field definition the storage layer refuses by name (phase 0)
+                run.outcome = ['Refused', 0, 0, err_class(e), f'{type(e).__name__}: {e}'[:300]]
+                return run
+            FieldSet(names[i], **fmd)
     ids = sorted(names)
     id_of = {v: k for k, v in names.items()}
     extra = [i for i in ids if i != 0]
@@ -564,13 +592,18 @@ def run_case_impl(case, tmp: Path) -> CaseRun:
         for i in ids:
             sp = ts._nc[names[i]].species
             run.file_species[str(i)] = None if sp is None else [sp_index[s] for s in sp]
-        reads = []
-        for k in range(len(trajs)):
+        reads = [None] * len(trajs)
+        run.diffs = [None] * len(trajs)
+        import zlib
+        how = zlib.crc32(uid.encode()) % 3          # the order in which trajectories are asked for must not matter
+        idxs = list(range(len(trajs)))
+        idxs = idxs if how == 0 else idxs[::-1] if how == 1 else idxs[1:] + idxs[:1]
+        for k in idxs:
             try:
                 r = ts[k]
             except BaseException as e:  # noqa: BLE001
-                reads.append(['err', err_class(e), f'{type(e).__name__}: {e}'[:300]])
-                run.diffs.append([['read-error', err_class(e)]])
+                reads[k] = ['err', err_class(e), f'{type(e).__name__}: {e}'[:300]]
+                run.diffs[k] = [['read-error', err_class(e)]]
                 continue
             vals, diffs = {}, []
             if len(r) != len(trajs[k]):
@@ -586,8 +619,8 @@ def run_case_impl(case, tmp: Path) -> CaseRun:
                     if d:
                         diffs.append([i, j, d])
                 vals[str(i)] = row
-            reads.append(['ok', vals])
-            run.diffs.append(diffs)
+            reads[k] = ['ok', vals]
+            run.diffs[k] = diffs
         run.outcome = ['Added', reads]
     finally:
         try:
